@@ -158,8 +158,12 @@ def decide(prop, a, seed, results, fns, abstract, t0):
     known_ids = {f["id"]: f for f in known_file.get("findings", []) if prop in f.get("properties", [f.get("property")])}
     ledger_all = load_json(os.path.join(ROOT, "LEDGER.json"), {})
     ledger = ledger_all.get(prop, {})
-    os.makedirs(os.path.join(ROOT, "replays"), exist_ok=True)
-    os.makedirs(os.path.join(ROOT, "evidence"), exist_ok=True)
+    # development runs against a scratch tree (PYVC_REPO) must never touch the committed evidence
+    scratch = os.path.abspath(REPO) != "/repo"
+    EVD = ".scratch/evidence" if scratch else "evidence"
+    RPD = ".scratch/replays" if scratch else "replays"
+    os.makedirs(os.path.join(ROOT, RPD), exist_ok=True)
+    os.makedirs(os.path.join(ROOT, EVD), exist_ok=True)
 
     violations = []  # (replay path, suffix, text)
     undecided = []
@@ -175,7 +179,7 @@ def decide(prop, a, seed, results, fns, abstract, t0):
     new_ledger = {}
 
     def add_violation(oname, key, payload, reproduced):
-        path = os.path.join("replays", "%s-%s.json" % (prop, sanitize(key.split(":")[-1] + "-" + oname)))
+        path = os.path.join(RPD, "%s-%s.json" % (prop, sanitize(key.split(":")[-1] + "-" + oname)))
         payload = dict(payload, property=prop, obligation=oname, function=key, reproduced_on_real_code=reproduced,
                        repo=REPO)
         with open(os.path.join(ROOT, path), "w") as fh:
@@ -285,7 +289,7 @@ def decide(prop, a, seed, results, fns, abstract, t0):
     n_dis = sum(1 for o in obligations if o["status"].startswith("discharged"))
     wall = round(time.time() - t0, 2)
 
-    if a.update_ledger:
+    if a.update_ledger and not scratch:
         ledger_all[prop] = new_ledger
         with open(os.path.join(ROOT, "LEDGER.json"), "w") as fh:
             json.dump(ledger_all, fh, indent=1, sort_keys=True)
@@ -323,7 +327,7 @@ def decide(prop, a, seed, results, fns, abstract, t0):
         ),
         assumptions=assumptions,
     )
-    with open(os.path.join(ROOT, "evidence", "%s.json" % prop), "w") as fh:
+    with open(os.path.join(ROOT, EVD, "%s.json" % prop), "w") as fh:
         json.dump(ev, fh, indent=1, default=str)
     print("%s: %d obligations, %d discharged, %d violations, %d undecided, %d known findings, %.1fs" % (
         prop, n_obl, n_dis, len(violations), len(undecided), len(known_seen), wall))
